@@ -1055,7 +1055,7 @@ package gocql
 //@   loop 0: step attemptQuery_calls == prev(attemptQuery_calls) + 1 ==> IsIdempotent_calls == prev(IsIdempotent_calls) + 1 && IsIdempotent_ret0
 //@   loop 0: step attemptQuery_calls == prev(attemptQuery_calls) + 1 ==> Attempt_calls == prev(Attempt_calls) + 1 && Attempt_ret0
 //@   loop 0: step attemptQuery_calls == prev(attemptQuery_calls) + 1 ==> GetRetryType_calls == prev(GetRetryType_calls) + 1 && (GetRetryType_ret0 == Retry || GetRetryType_ret0 == RetryNextHost)
-//@   loop 0: step attemptQuery_calls == prev(attemptQuery_calls) + 1 ==> attemptQuery_ret0.err != nil
+//@   loop 0: step attemptQuery_calls == prev(attemptQuery_calls) + 1 ==> attemptQuery_ret0.err != nil && attemptQuery_ret0.err != context.Canceled && attemptQuery_ret0.err != context.DeadlineExceeded
 // Retry: same host, host iterator not advanced; RetryNextHost: advanced exactly once
 //@   loop 0: step attemptQuery_calls == prev(attemptQuery_calls) + 1 && GetRetryType_ret0 == Retry ==> selectedHost == prev(selectedHost) && hostIter_calls == prev(hostIter_calls)
 //@   loop 0: step attemptQuery_calls == prev(attemptQuery_calls) + 1 && GetRetryType_ret0 == RetryNextHost ==> hostIter_calls == prev(hostIter_calls) + 1
@@ -1064,6 +1064,32 @@ package gocql
 // exactly one result, never nil
 //@   ensures result != nil
 //@   ensures attemptQuery_calls == 0 ==> result.err != nil
+
+// A query that is not idempotent (or a policy with zero attempts) is executed by one sequential
+// do() call in the caller's goroutine: no speculative goroutine is started.
+// Query and Batch always carry a speculative execution policy (NonSpeculativeExecution by default)
+//@ func (recv ExecutableQuery) speculativeExecutionPolicy
+//@   interface
+//@   trusted Query.speculativeExecutionPolicy / Batch.speculativeExecutionPolicy return the configured, non-nil policy
+//@   modifies nothing
+//@   ensures result != nil
+
+//@ func (q *queryExecutor) executeQuery
+//@   props C13
+//@   count_calls do go IsIdempotent Attempts
+//@   requires q.policy != nil && q.pool != nil && qry != nil
+//@   ensures IsIdempotent_calls >= 1
+//@   ensures !IsIdempotent_ret0 ==> do_calls == 1 && go_calls == 0 && result0 == do_ret0 && result1 == nil
+//@   ensures Attempts_calls == 1 && Attempts_ret0 == 0 ==> do_calls == 1 && go_calls == 0 && result0 == do_ret0
+//@   ensures result1 == nil
+
+// speculative executions: at most sp.Attempts() additional goroutines
+//@ func (q *queryExecutor) speculate
+//@   props C13
+//@   count_calls go Attempts
+//@   requires sp != nil && ctx != nil && qry != nil
+//@   loop 0: invariant 0 <= i && go_calls <= i
+//@   loop 0: step go_calls <= prev(go_calls) + 1
 
 //@ func (s *SimpleRetryPolicy) Attempt
 //@   props C13
